@@ -25,11 +25,38 @@ def gen_cases(chk):
     for name, l in longs:
         g.note(name.rsplit("_", 1)[0])
         cases.append({"kind": name, "lib": l})
-    return cases, g.dist
+    # directed families (generator audit 2026-10-02): optional fields holding their default value, all STRANS flag
+    # combinations, record lengths at the 256 / 32768 boundaries, the same name / element / attribute twice, white space and
+    # control characters in strings, more than 1024 structs / elements
+    for fam, name, l in directed_libs(chk.seed, quick):
+        g.note(fam)
+        cases.append({"kind": name, "lib": l})
+    # the file-system entry points GdsLibrary::save / GdsLibrary::open (everything above goes through write(Vec) / from_bytes):
+    # into a fresh file and over an older, longer file; small, larger than any I/O buffer, and one that fails to write
+    full = base_lib(b"all", [{"name": b"cell", "dates": list(range(12)), "elems": [g.elem(k, force=set(OPT_FIELDS[k])) for k in KINDS]}])
+    big = plain_elem("text"); big["string"] = b"b" * 65529 + b"e"
+    toolong = plain_elem("text"); toolong["string"] = b"b" * 65531 + b"e"
+    bigxy = plain_elem("boundary"); bigxy["xy"] = [1, -2] * 3000
+    io_libs = [("file_io_full", full), ("file_io_empty", base_lib(b"")), ("file_io_long_text", one_elem_lib(big)),
+               ("file_io_long_fail", base_lib(b"l", [{"name": b"c", "dates": [0] * 12, "elems": [plain_elem("box"), toolong]}])),
+               ("file_io_long_xy", one_elem_lib(bigxy))]
+    for _ in range(8 if quick else 200):
+        l = g.lib()
+        while in_class_even_nul(l):       # the known-finding class is judged in the plain families
+            l = g.lib()
+        io_libs.append(("file_io_random", l))
+    for i, (name, l) in enumerate(io_libs):
+        for old_len in (0, 200000):
+            g.note("file_io_fresh" if old_len == 0 else "file_io_over_longer_file")
+            cases.append({"kind": name, "lib": l, "io": {"old_len": old_len}})
+    return spread_heavy(cases), g.dist
 
-def evaluate(chk, libs, tag, check="c01_check"):
-    """-> list of (code, impl result)"""
-    res = harness("c01", [{"op": "write_read", "lib": to_json(l)} for l in libs])
+def evaluate(chk, libs, tag, check="c01_check", ios=None):
+    """-> list of (code, impl result). ios[i] = None: GdsLibrary::write into a Vec and from_bytes; {"old_len": n}: GdsLibrary::save
+    into a file (holding n bytes of older content) and GdsLibrary::open, judged by the same check on the bytes found in the file"""
+    ios = ios or [None] * len(libs)
+    res = harness("c01", [({"op": "write_read", "lib": to_json(l)} if io is None else {"op": "save_open", "lib": to_json(l), "old_len": io["old_len"]})
+                          for l, io in zip(libs, ios)])
     items, idx = [], []
     out = [None] * len(libs)
     for i, (l, r) in enumerate(zip(libs, res)):
@@ -38,13 +65,15 @@ def evaluate(chk, libs, tag, check="c01_check"):
             continue
         items.append(capp(check, to_coq(l), c_wres(r["w"]), c_rres(r.get("r"))))
         idx.append(i)
-    codes = eval_codes(chk, items, tag)
+    codes = eval_codes(chk, items, tag, shard=32)
     for i, c in zip(idx, codes):
         r = res[i]
         # keep evidence small: drop the byte dump
         slim = {"w": ({"ok_len": len(r["w"]["ok"]) // 2} if "ok" in r["w"] else r["w"]), "eq": r.get("eq")}
         if "r" in r:
             slim["r"] = r["r"] if "ok" not in r["r"] else "ok"
+        if ios[i] is not None:
+            slim["io"] = ios[i]
         out[i] = (c, slim)
     return out
 
@@ -59,22 +88,25 @@ def run(chk, replay=None):
     chk.proof_leg(MODEL_TARGETS, "Properties/C01.v", PROOF_FILES, "Properties.C01")
     chk.assumptions += [
         "GdsFloat64 codec as modelled in Gds/GdsReal.v (C15)",
-        "writing into a Vec<u8> (no I/O errors); reading from a byte slice (GdsLibrary::from_bytes)",
+        "writing into a Vec<u8> (no I/O errors); reading from a byte slice (GdsLibrary::from_bytes); family file_io: GdsLibrary::save / open on a scratch file of a working file system",
         "error values are compared by GdsError variant only",
     ]
     if not getattr(chk, "model_ok", False):
         return
     if replay:
         obj = json.load(open(replay))["replay"]
-        cases = [{"kind": "replay", "lib": from_json(j)} for j in obj.get("cases", [])]
+        ios = obj.get("ios") or [None] * len(obj.get("cases", []))
+        cases = [{"kind": "replay", "lib": from_json(j), "io": io} for j, io in zip(obj.get("cases", []), ios)]
         dist = {}
     else:
         cases, dist = gen_cases(chk)
     libs = [c["lib"] for c in cases]
-    results = evaluate(chk, libs, "c01")
+    results = evaluate(chk, libs, "c01", ios=[c.get("io") for c in cases])
     chk.cov["input_distribution"] = dist
     chk.cov["rule"] = ("libraries generated per DESIGN.md C01 (0-4 structs, 0-6 elements, seven kinds, optional fields 50% each or by enumerated subset, "
-                       "properties 0-3, string/coordinate/real edge classes, payloads around the 65535-byte limit); non-trivial = at least one element; distinct by JSON value")
+                       "properties 0-3, string/coordinate/real edge classes, payloads around the 65535-byte limit), directed libraries (optional fields at their default value, "
+                       "STRANS flag combinations, record lengths at 256 / 32768, repeated names / elements / attributes, white space and control characters, more than 1024 items), "
+                       "and libraries taken through GdsLibrary::save / open on a file (fresh, and over an older longer file); non-trivial = at least one element; distinct by JSON value")
     chk.cov["evaluations"] = len(cases)
     chk.cov["distinct_nontrivial"] = len({lib_key(l) for l in libs if any(s["elems"] for s in l["structs"])})
     chk.cov["traces_validated_against_impl"] = sum(1 for r in results if r[0] == 0)
@@ -85,26 +117,31 @@ def run(chk, replay=None):
     chk.cov["correspondence_mismatches"] = len(mism)
     by_class = {}
     for c, r in viol:
-        by_class.setdefault(classify(c["lib"], r[1]), []).append((c, r))
+        # a failure seen through save / open is kept apart (its replay carries the file-system parameters)
+        by_class.setdefault(classify(c["lib"], r[1]) if c.get("io") is None else "file-io", []).append((c, r))
     chk.cov["violations_by_class"] = {k: len(v) for k, v in by_class.items()}
     for cls, vs in sorted(by_class.items()):
         vs.sort(key=lambda cr: lib_size(cr[0]["lib"]))
         c0, r0 = vs[0]
-        def still(cands, cls=cls):
-            rs = evaluate(chk, cands, "c01shr")
-            return [rr[0] == 2 and classify(l, rr[1]) == cls for l, rr in zip(cands, rs)]
+        io0 = c0.get("io")
+        def still(cands, cls=cls, io0=io0):
+            rs = evaluate(chk, cands, "c01shr", ios=[io0] * len(cands))
+            return [rr[0] == 2 and (io0 is not None or classify(l, rr[1]) == cls) for l, rr in zip(cands, rs)]
         small = shrink(c0["lib"], still) if lib_size(c0["lib"]) < 5000 else c0["lib"]
         entry = known_entry(chk.pid, cls)
-        if entry is not None and classify(small, r0[1]) == cls:
+        if entry is not None and io0 is None and classify(small, r0[1]) == cls:
             chk.known(entry, small)
             chk.notes.append("known finding %s: %d cases, smallest %s" % (cls, len(vs), json.dumps(to_json(small))[:600]))
             continue
-        sr = evaluate(chk, [small], "c01wit")[0]
+        sr = evaluate(chk, [small], "c01wit", ios=[io0])[0]
         chk.violation("GDSII write-then-read [%s]: %d of %d libraries fail; smallest: %s -> impl %s" %
                       (cls, len(vs), len(cases), json.dumps(to_json(small))[:700], json.dumps(sr[1])[:300]),
-                      {"cases": [to_json(small)] + [to_json(c["lib"]) for c, _ in vs[:10] if lib_size(c["lib"]) < 5000], "class": cls},
+                      {"cases": [to_json(small)] + [to_json(c["lib"]) for c, _ in vs[:10] if lib_size(c["lib"]) < 5000],
+                       "ios": [io0] + [c.get("io") for c, _ in vs[:10] if lib_size(c["lib"]) < 5000], "class": cls},
                       suffix="-" + cls)
-    if mism and not viol:
+    # (`not viol` until 2026-10-02: the known-finding cases are code 2 as well and occur in every run, so a correspondence
+    # mismatch was only ever written to the notes; what counts is whether a violation has been REPORTED)
+    if mism and not chk.violations:
         c, r = min(mism, key=lambda cr: lib_size(cr[0]["lib"]))
         chk.broken.append("correspondence C01: impl differs from model (property holds), e.g. %s impl=%s" %
                           (json.dumps(to_json(c["lib"]))[:500], json.dumps(r[1])[:200]))
